@@ -250,3 +250,62 @@ def deep_fault_frames(rnd, depth):
             yield envelope(1, 0, p), 'deep-fault:%s:%d' % (name, depth)
             h = struct.pack('>HHQH', 60, 0, 0, 0x2000) + table
             yield envelope(2, 1, h), 'deep-fault:%s:%d' % (name, depth)
+
+
+def deep_length_skew_frames(rnd, depth):
+    """Nested tables (one per level) whose declared lengths are ALL wrong at
+    once, by an amount that depends on the level.  A decoder that retries,
+    re-slices or re-decodes a child when a length does not add up repeats
+    the work of every level below it."""
+    spare = b'S' + struct.pack('>I', depth + 8) + b'x' * (depth + 8)
+    v = b'\x01s' + spare                       # innermost table body
+    bodies = []
+    for j in range(depth):
+        bodies.append(v)
+        v = b'\x01n' + b'F' + struct.pack('>I', len(v)) + v
+    true = struct.pack('>I', len(v)) + v        # outermost table, level 1
+    patterns = {
+        'outer-short-more': lambda j: -(depth - j + 1),
+        'inner-short-more': lambda j: -j,
+        'all-short-1': lambda j: -1,
+        'all-long-1': lambda j: 1,
+        'outer-long-more': lambda j: depth - j + 1,
+        'alternate': lambda j: -2 if j % 2 else 1,
+    }
+    for name, skew in patterns.items():
+        b = bytearray(true)
+        for j in range(1, depth + 1):
+            off = 7 * (j - 1)
+            if off + 4 > len(b):
+                break
+            cur = struct.unpack('>I', bytes(b[off:off + 4]))[0]
+            b[off:off + 4] = struct.pack('>I', max(0, cur + skew(j)))
+        table = bytes(b)
+        p = struct.pack('>HHBB', 10, 10, 0, 9) + table + \
+            struct.pack('>I', 0) + struct.pack('>I', 0)
+        yield envelope(1, 0, p), 'deep-length-skew:%s:%d' % (name, depth)
+        h = struct.pack('>HHQH', 60, 0, 0, 0x2000) + table
+        yield envelope(2, 1, h), 'deep-length-skew:%s:%d' % (name, depth)
+
+
+def leak_probe_frames(rnd, size=60000):
+    """Large frames, most of them refused late (after nearly all of the input
+    was decoded), used to measure memory RETAINED across a long sequence of
+    decodes."""
+    def start(tab):
+        table = struct.pack('>I', len(tab)) + tab
+        return envelope(1, 0, struct.pack('>HHBB', 10, 10, 0, 9) + table +
+                        struct.pack('>I', 0) + struct.pack('>I', 0))
+    arr = b'b\x01' * (size // 2)
+    yield start(b'\x01a' + b'A' + struct.pack('>I', len(arr) + 50) + arr), \
+        'leak:array-length-beyond-data'
+    yield start(b'\x01a' + b'A' + struct.pack('>I', len(arr) + 1) + arr +
+                b'\x07'), 'leak:array-bad-tag-at-end'
+    ent = b'\x01kV' * (size // 3)
+    yield start(ent + b'\x01\xffV'), 'leak:table-bad-key-at-end'
+    yield start(ent + b'\x01kT' + b'\xff' * 8), 'leak:table-bad-timestamp'
+    yield start(ent + b'\x01kS\x00\x00\xff\xff'), 'leak:string-beyond-data'
+    yield start(ent), 'leak:valid-big-table'
+    yield envelope(3, 1, rnd.randbytes(size))[:-1] + b'\x00', \
+        'leak:body-bad-end-octet'
+    yield envelope(3, 1, rnd.randbytes(size)), 'leak:valid-big-body'
